@@ -91,6 +91,8 @@ type c03Mut struct {
 	truncate int    // -1 = none, else cut the frame to this length
 	ethProto uint16 // 0 = natural
 	version  byte   // 0 = natural (IPv4 version nibble)
+	doff     byte   // 0 = natural (5); TCP data offset in 32-bit words, options are zero bytes
+	skbProto int    // 0 = natural; skb->protocol differing from the frame's ethertype
 	icmpType byte
 	extra    []c03Ext
 }
@@ -121,6 +123,12 @@ func c03Frame(f *c03Flow, fwd bool, flags byte, l2 bool, m *c03Mut) []byte {
 		l4[12] = 0x50
 		l4[13] = flags
 		binary.BigEndian.PutUint16(l4[14:], 65535)
+		if m != nil && m.doff != 0 {
+			l4[12] = m.doff << 4
+			for i := 5; i < int(m.doff); i++ {
+				l4 = append(l4, 1, 1, 1, 1) // NOP options
+			}
+		}
 		l4 = append(l4, 'h', 'i')
 	case 17:
 		l4 = make([]byte, 8, 16)
@@ -493,6 +501,78 @@ type c03Gen struct {
 	ctlPid uint32
 	smark  uint32
 	netns  uint32
+	// steps left until the pending janitor round (jsnap emitted) reaches its delete phase (jdel); 0 = none pending
+	pendingDel int
+}
+
+// PARAM := image of the control plane's own struct literal; the Go answer is what the programs must read from it
+func (g *c03Gen) paramImage(in verifC03ParamIn) {
+	img, err := verifC03ParamImage(in)
+	if err != nil {
+		g.st.Emit("paramimg 00", "error:"+err.Error())
+		return
+	}
+	g.st.Emit("paramimg "+hex.EncodeToString(img), fmt.Sprintf("port=%d pid=%d dae0=%d netns=%d mac=%s peer=%d task=%d mark=%d size=%d",
+		in.TproxyPort, os.Getpid(), in.Dae0Ifindex, in.NetnsID, hex.EncodeToString(in.PeerMac[:]), in.UseRedirectPeer,
+		in.HasBpfGetCurrentTask, in.SoMarkFromDae, len(img)))
+}
+
+func c03HexOr(b []byte, fail bool) string {
+	if fail {
+		return "-"
+	}
+	if len(b) == 0 {
+		return "="
+	}
+	return hex.EncodeToString(b)
+}
+
+// one of the cgroup programs runs for socket `cookie` in the context of process (tgid, name): the command line the
+// kernel finds at mm->arg_start is a variation on the name (paths, arguments, spaces, over-long, unreadable)
+func (g *c03Gen) cg(r *VRand, prog string, cookie uint64, tgid uint32, name string) {
+	hasTask := 1
+	if r.Chance(0.2) {
+		hasTask = 0
+		g.stats.Inc("cg.no-current-task-helper")
+	}
+	comm := []byte(name)
+	if len(comm) > 15 {
+		comm = comm[:15]
+	}
+	commFail := r.Chance(0.05)
+	var args []byte
+	argsFail := false
+	kind := ""
+	switch x := r.Intn(20); {
+	case x < 4:
+		args, kind = []byte(name), "bare"
+	case x < 9:
+		args, kind = []byte("/usr/bin/"+name), "path"
+	case x < 12:
+		args, kind = []byte("/usr/lib/"+name+"/"+name+" --socket /tmp/"+name+"-auth1"), "path-args"
+	case x < 13:
+		args, kind = []byte("./"+name+" -v"), "relative"
+	case x < 14:
+		args, kind = []byte("/opt/my apps/"+name), "space-in-path"
+	case x < 15:
+		args, kind = []byte("/usr/sbin/"+name+"/ x"), "trailing-slash"
+	case x < 16:
+		args, kind = []byte("/"+strings.Repeat("d/", 10+r.Intn(60))+name+" a"), "long-path" // crosses the 127-byte read limit now and then
+	case x < 17:
+		args, kind = []byte("/usr/bin/"+name+"-0123456789abcdefghij --x"), "name-ge-16"
+	case x < 18:
+		args, kind = nil, "empty"
+	case x < 19:
+		args, kind = []byte{0xc3, 0xa9, '/', 0xff, 0x80, 0x7f, '/', 0xe2, 0x82, 0xac, 'x'}, "non-ascii"
+	default:
+		argsFail, kind = true, "unreadable"
+	}
+	if len(args) > 127 {
+		g.stats.Inc("cg.args.over-127")
+	}
+	g.c(fmt.Sprintf("cg %s %d %d %d %s %s", prog, cookie, tgid, hasTask, c03HexOr(comm, commFail), c03HexOr(args, argsFail)))
+	g.stats.Inc("cg.prog." + prog)
+	g.stats.Inc("cg.args." + kind)
 }
 
 func (g *c03Gen) c(op string) { g.st.Emit(op, "-") }
@@ -726,7 +806,13 @@ func (g *c03Gen) use(r *VRand, f *c03Flow, fwd bool) {
 		if dt < 0 {
 			dt = 0
 		}
-		g.c(fmt.Sprintf("use %d %s %d %s %d %d %d", l4, hex.EncodeToString(sip[:]), sp, hex.EncodeToString(dip[:]), dp, age, dt))
+		fault := ""
+		if r.Chance(0.08) {
+			// one of RetrieveRoutingResult's two map lookups fails (closed map: an error that is not ErrKeyNotExist)
+			fault = []string{" conn", " ho"}[r.Intn(2)]
+			g.stats.Inc("use.fault" + strings.Replace(fault, " ", ".", 1))
+		}
+		g.c(fmt.Sprintf("use %d %s %d %s %d %d %d%s", l4, hex.EncodeToString(sip[:]), sp, hex.EncodeToString(dip[:]), dp, age, dt, fault))
 		g.stats.Inc(fmt.Sprintf("use.l4-%d", l4))
 	}
 	if !f.tcp && r.Chance(0.2) {
@@ -757,8 +843,50 @@ func (g *c03Gen) use(r *VRand, f *c03Flow, fwd bool) {
 // one janitor round (conn-state + hand-off), steady-state or under pressure, `age` ns from now
 func (g *c03Gen) jan(r *VRand) {
 	age := []uint64{0, 0, 2000000000, 30000000000, 61000000000, 90000000000, 130000000000}[r.Intn(7)]
-	g.c(fmt.Sprintf("jan %d %d", c03B2u(r.Chance(0.4)), age))
-	g.stats.Inc("op.jan")
+	switch x := r.Intn(10); {
+	case x < 4:
+		g.c(fmt.Sprintf("jan %d %d", c03B2u(r.Chance(0.4)), age))
+		g.stats.Inc("op.jan")
+	case x < 7:
+		// all four janitors (conn-state, hand-off, redirect_track, cookie_pid); with a retirement horizon this is the
+		// reload pass RunReloadRetirementCleanup(staleBeforeNs)
+		age = []uint64{0, 0, 2000000000, 61000000000, 130000000000, 299000000000, 301000000000, 400000000000}[r.Intn(8)]
+		ago := []uint64{0, 0, 1, 500000000, 3000000000, 30000000000, 100000000000}[r.Intn(7)]
+		g.c(fmt.Sprintf("jan4 %d %d %d", c03B2u(r.Chance(0.4)), age, ago))
+		g.stats.Inc("op.jan4")
+		if ago != 0 {
+			g.stats.Inc("op.jan4.reload-retirement")
+		}
+	default:
+		// a round whose two phases are separated by traffic: the BatchLookup walk now (often right after the flows went
+		// idle for longer than a timeout), the deletes a few steps later
+		if g.pendingDel > 0 {
+			g.c("jdel")
+			g.pendingDel = 0
+			g.stats.Inc("op.jdel")
+		}
+		if r.Chance(0.6) {
+			g.clock += []uint64{5100000000, 10100000000, 60100000000, 120100000000, 121000000000}[r.Intn(5)]
+			g.c(fmt.Sprintf("clock %d", g.clock))
+		}
+		ago := []uint64{0, 0, 0, 1, 3000000000, 100000000000}[r.Intn(6)]
+		g.c(fmt.Sprintf("jsnap %d 0 %d", c03B2u(r.Chance(0.4)), ago))
+		g.pendingDel = 2 + r.Intn(3)
+		g.stats.Inc("op.jsnap")
+	}
+}
+
+// the delete phase of a pending two-phase round is due
+func (g *c03Gen) janTick(force bool) {
+	if g.pendingDel == 0 {
+		return
+	}
+	g.pendingDel--
+	if g.pendingDel == 0 || force {
+		g.c("jdel")
+		g.pendingDel = 0
+		g.stats.Inc("op.jdel")
+	}
 }
 
 func (g *c03Gen) scenario(r *VRand, rp *VRand, id int, tag string, steps int) {
@@ -774,7 +902,14 @@ func (g *c03Gen) scenario(r *VRand, rp *VRand, id int, tag string, steps int) {
 	usePeer := r.Chance(0.3)
 	g.netns = []uint32{0, 4026531999, 4026532100}[r.Intn(3)]
 	g.c(fmt.Sprintf("param %d %d %d %d %s %d", g.ctlPid, g.smark, 9, c03B2u(usePeer), "0a0b0c0d0e0f", g.netns))
-	if r.Chance(0.05) {
+	if r.Chance(0.4) {
+		// PARAM as the control plane builds it: the struct literal of fullLoadBpfObjects (regenerated from bpf_utils.go),
+		// serialised as cilium/ebpf does, read back by the programs at the C offsets; control_plane_pid = this process
+		g.ctlPid = uint32(os.Getpid())
+		g.paramImage(verifC03ParamIn{TproxyPort: 0x3930, Dae0Ifindex: 9, NetnsID: g.netns, PeerMac: [6]byte{10, 11, 12, 13, 14, 15},
+			UseRedirectPeer: c03B2u(usePeer), HasBpfGetCurrentTask: 1, SoMarkFromDae: g.smark})
+		g.stats.Inc("scenario.param-from-control-plane-literal")
+	} else if r.Chance(0.05) {
 		g.c(fmt.Sprintf("param %d %d %d %d %s %d", 0, g.smark, 9, c03B2u(usePeer), "0a0b0c0d0e0f", g.netns))
 		g.stats.Inc("param.ctlpid0")
 	}
@@ -809,13 +944,28 @@ func (g *c03Gen) scenario(r *VRand, rp *VRand, id int, tag string, steps int) {
 		flows[nf-1] = &c
 		g.stats.Inc("flow.tuple-reuse-by-dae")
 	}
-	// cookies: 10..13 applications, 20 = dae
+	// cookies: 10..13 applications, 20 = dae; registered by the cgroup programs (sock_create / connect / sendmsg in the
+	// context of the owning process) or written directly
+	viaCg := r.Chance(0.6)
+	if viaCg {
+		g.stats.Inc("scenario.cookies-via-cgroup-programs")
+	}
+	cgProgs := []string{"create", "create", "connect4", "connect6", "sendmsg4", "sendmsg6"}
 	for ck := 10; ck <= 13; ck++ {
 		if r.Chance(0.85) {
-			g.c(fmt.Sprintf("cookie %d %d %s", ck, 1000+ck, hex.EncodeToString(func() []byte { v := c03Pname(c03Pnames[(ck-10)%len(c03Pnames)]); return v[:] }())))
+			name := c03Pnames[(ck-10)%len(c03Pnames)]
+			if viaCg {
+				g.cg(r, cgProgs[r.Intn(len(cgProgs))], uint64(ck), uint32(1000+ck), name)
+			} else {
+				g.c(fmt.Sprintf("cookie %d %d %s", ck, 1000+ck, hex.EncodeToString(func() []byte { v := c03Pname(name); return v[:] }())))
+			}
 		}
 	}
-	g.c(fmt.Sprintf("cookie 20 %d %s", 4242, hex.EncodeToString(func() []byte { v := c03Pname("dae"); return v[:] }())))
+	if viaCg {
+		g.cg(r, "create", 20, g.ctlPid, "dae")
+	} else {
+		g.c(fmt.Sprintf("cookie 20 %d %s", g.ctlPid, hex.EncodeToString(func() []byte { v := c03Pname("dae"); return v[:] }())))
+	}
 	// connectivity bits through the REAL key function
 	for ob := uint8(0); ob <= 5; ob++ {
 		for _, udp := range []bool{false, true} {
@@ -855,7 +1005,9 @@ func (g *c03Gen) scenario(r *VRand, rp *VRand, id int, tag string, steps int) {
 	}
 	setDom()
 
+	g.pendingDel = 0
 	for s := 0; s < steps; s++ {
+		g.janTick(false)
 		switch x := r.Intn(100); {
 		case x < 70:
 			f := flows[r.Intn(len(flows))]
@@ -895,7 +1047,20 @@ func (g *c03Gen) scenario(r *VRand, rp *VRand, id int, tag string, steps int) {
 			var m *c03Mut
 			if r.Chance(0.08) {
 				m = &c03Mut{truncate: -1}
-				switch r.Intn(7) {
+				switch r.Intn(10) {
+				case 7:
+					m.version = byte(r.Intn(16))
+					g.stats.Inc("mut.ip-version-nibble")
+				case 8:
+					m.doff = byte(1 + r.Intn(15))
+					g.stats.Inc("mut.tcp-doff")
+				case 9:
+					if tag == "S" {
+						// skb->protocol that is not the frame's ethertype (never produced by eth_type_trans; VLAN / raw senders):
+						// only where the two parse paths are not compared against each other
+						m.skbProto = []int{c03EthIP, c03EthIPv6, 0x0806, 0x8100, 0}[r.Intn(5)]
+						g.stats.Inc("mut.skb-protocol")
+					}
 				case 0:
 					m.fragOff = 0x2000 // first fragment, MF
 					g.stats.Inc("mut.frag.first")
@@ -963,6 +1128,9 @@ func (g *c03Gen) scenario(r *VRand, rp *VRand, id int, tag string, steps int) {
 				proto := f.skbProto()
 				if m != nil && m.ethProto != 0 && r.Bool() {
 					proto = int(m.ethProto)
+				}
+				if m != nil && m.skbProto != 0 {
+					proto = m.skbProto
 				}
 				sk := "-"
 				if (hop.hook == "li" && r.Chance(0.15)) || (hop.hook != "li" && r.Chance(0.01)) {
@@ -1079,10 +1247,25 @@ func (g *c03Gen) scenario(r *VRand, rp *VRand, id int, tag string, steps int) {
 			g.stats.Inc("op.conndel")
 		case x < 95:
 			ck := 10 + r.Intn(4)
-			if r.Bool() {
+			switch y := r.Intn(10); {
+			case y < 2:
 				g.c(fmt.Sprintf("cookiedel %d", ck))
-			} else {
+			case y < 4:
 				g.c(fmt.Sprintf("cookie %d %d %s", ck, 2000+r.Intn(3), hex.EncodeToString(func() []byte { v := c03Pname(c03Pnames[r.Intn(len(c03Pnames))]); return v[:] }())))
+			case y < 6:
+				// the socket is closed: sock_release forgets it; the next socket of the host may be given to any process
+				g.cg(r, "release", uint64(ck), uint32(1000+ck), "x")
+				if r.Bool() {
+					g.cg(r, "create", uint64(ck), uint32(2000+r.Intn(3)), c03Pnames[r.Intn(len(c03Pnames))])
+				}
+			case y < 8:
+				// another process (a child that inherited the descriptor, dae itself, ...) uses the socket: first owner stays
+				g.cg(r, cgProgs[2+r.Intn(4)], uint64(ck), []uint32{uint32(3000 + r.Intn(3)), g.ctlPid}[r.Intn(2)], c03Pnames[r.Intn(len(c03Pnames))])
+			case y < 9:
+				// dae opens another socket of its own / a cookie 0 context (no socket)
+				g.cg(r, "create", []uint64{20, 21, 0}[r.Intn(3)], g.ctlPid, "dae")
+			default:
+				g.cg(r, "create", uint64(14+r.Intn(3)), uint32(1000+r.Intn(20)), c03Pnames[r.Intn(len(c03Pnames))])
 			}
 			g.stats.Inc("op.cookie-change")
 		default:
@@ -1093,7 +1276,9 @@ func (g *c03Gen) scenario(r *VRand, rp *VRand, id int, tag string, steps int) {
 			}
 		}
 	}
-	g.jan(r)
+	g.janTick(true)
+	g.c(fmt.Sprintf("jan %d %d", c03B2u(r.Chance(0.4)), []uint64{0, 2000000000, 61000000000, 130000000000}[r.Intn(4)]))
+	g.stats.Inc("op.jan")
 	g.c("dump")
 }
 
@@ -1161,6 +1346,11 @@ func (g *c03Gen) parseSection(r *VRand, n int) {
 			}
 		case 5:
 			m.version = byte(r.Intn(16))
+		case 6:
+			m.doff = byte(r.Intn(16))
+			if m.doff == 0 {
+				m.doff = 15
+			}
 		}
 		fr := c03Frame(f, true, flags, l2, m)
 		if r.Chance(0.25) {
@@ -1172,6 +1362,123 @@ func (g *c03Gen) parseSection(r *VRand, n int) {
 		}
 		emit(l2, proto, fr)
 	}
+}
+
+// ------------------------------------------------------------------ RetrieveOriginalDest on generated control messages
+
+func c03Cmsg(level, typ uint32, data []byte, lenDelta int) []byte {
+	b := make([]byte, 16, 16+len(data)+8)
+	binary.NativeEndian.PutUint64(b[0:], uint64(16+len(data)+lenDelta))
+	binary.NativeEndian.PutUint32(b[8:], level)
+	binary.NativeEndian.PutUint32(b[12:], typ)
+	b = append(b, data...)
+	for len(b)%8 != 0 {
+		b = append(b, 0)
+	}
+	return b
+}
+
+func (g *c03Gen) origDstSection(r *VRand, n int) {
+	ans := func(oob []byte) string {
+		ap := RetrieveOriginalDest(oob)
+		switch {
+		case !ap.IsValid():
+			return "od=-"
+		case ap.Addr().Is4():
+			a := ap.Addr().As4()
+			return fmt.Sprintf("od=4:%s:%d", hex.EncodeToString(a[:]), ap.Port())
+		default:
+			a := ap.Addr().As16()
+			return fmt.Sprintf("od=6:%s:%d", hex.EncodeToString(a[:]), ap.Port())
+		}
+	}
+	emit := func(oob []byte) {
+		hx := "="
+		if len(oob) > 0 {
+			hx = hex.EncodeToString(oob)
+		}
+		g.st.Emit("origdst "+hx, VRecover(func() string { return ans(oob) }))
+		g.stats.Inc("origdst.ops")
+	}
+	sa4 := func() []byte {
+		d := make([]byte, 16)
+		binary.NativeEndian.PutUint16(d[0:], 2)
+		binary.BigEndian.PutUint16(d[2:], uint16([]int{53, 443, 0, 65535, 8080}[r.Intn(5)]))
+		copy(d[4:8], []byte{1, 2, 3, byte(4 + r.Intn(200))})
+		return d
+	}
+	sa6 := func() []byte {
+		d := make([]byte, 28)
+		binary.NativeEndian.PutUint16(d[0:], 10)
+		binary.BigEndian.PutUint16(d[2:], uint16([]int{53, 443, 0, 65535, 8080}[r.Intn(5)]))
+		copy(d[8:24], []byte{0x20, 1, 0xd, 0xb8, 0, 0, 0, 0, 0, 0, 0, 0, 0, 0, 0, byte(1 + r.Intn(200))})
+		if r.Chance(0.2) {
+			copy(d[8:24], []byte{0, 0, 0, 0, 0, 0, 0, 0, 0, 0, 0xff, 0xff, 10, 0, 0, 1}) // a mapped IPv4 destination on the dual-stack listener
+		}
+		binary.NativeEndian.PutUint32(d[24:], uint32(r.Intn(3)))
+		return d
+	}
+	other := func() []byte {
+		switch r.Intn(6) {
+		case 0:
+			return c03Cmsg(0, 8, make([]byte, 12), 0) // IP_PKTINFO
+		case 1:
+			return c03Cmsg(41, 50, make([]byte, 20), 0) // IPV6_PKTINFO
+		case 2:
+			return c03Cmsg(1, 29, make([]byte, 16), 0) // SCM_TIMESTAMP
+		case 3:
+			return c03Cmsg(0, 1, []byte{0x28, 0, 0, 0}, 0) // IP_TOS, 4 bytes of data: length not a multiple of 8
+		case 4:
+			return c03Cmsg(0x80000000|uint32(r.Intn(2))*41, uint32(20+r.Intn(2)*54), sa4(), 0) // level with the sign bit set
+		default:
+			return c03Cmsg(uint32(r.Intn(3))*41, uint32(r.Intn(100)), make([]byte, r.Intn(40)), 0)
+		}
+	}
+	for i := 0; i < n; i++ {
+		var oob []byte
+		for k := r.Intn(4); k > 0; k-- {
+			oob = append(oob, other()...)
+		}
+		kind := "v4"
+		switch x := r.Intn(20); {
+		case x < 7:
+			oob = append(oob, c03Cmsg(0, 20, sa4(), 0)...)
+		case x < 13:
+			oob = append(oob, c03Cmsg(41, 74, sa6(), 0)...)
+			kind = "v6"
+		case x < 14:
+			// the right type with a short body first (skipped), then the real one
+			oob = append(oob, c03Cmsg(0, 20, sa4()[:8+r.Intn(8)], 0)...)
+			oob = append(oob, c03Cmsg(41, 74, sa6(), 0)...)
+			kind = "short-then-real"
+		case x < 15:
+			oob = append(oob, c03Cmsg(0, 74, sa6(), 0)...) // level / type of different families
+			oob = append(oob, c03Cmsg(41, 20, sa4(), 0)...)
+			kind = "mixed-family"
+		case x < 16:
+			oob = append(oob, c03Cmsg(0, 20, sa4(), []int{-17, -1, 1, 8, 1000}[r.Intn(5)])...) // a lying length field
+			kind = "bad-len"
+		case x < 17:
+			m := c03Cmsg(0, 20, sa4(), 0)
+			binary.NativeEndian.PutUint64(m[0:], []uint64{1 << 63, ^uint64(0), 0, 15}[r.Intn(4)])
+			oob = append(oob, m...)
+			kind = "huge-len"
+		case x < 18:
+			kind = "none"
+		default:
+			oob = append(oob, c03Cmsg(0, 20, sa4(), 0)...)
+			oob = oob[:r.Intn(len(oob)+1)]
+			kind = "truncated"
+		}
+		if r.Chance(0.3) {
+			oob = append(oob, other()...)
+		}
+		g.stats.Inc("origdst." + kind)
+		emit(oob)
+	}
+	emit(nil)
+	emit(make([]byte, 15))
+	emit(make([]byte, 16))
 }
 
 // ------------------------------------------------------------------ constants the Go side knows
@@ -1372,6 +1679,30 @@ func (g *c03Gen) witnesses() {
 		g.frameOp(c03Hop{"le", true, 2, 3}, c03EthIP, qf, len(qf), 1, 0, 0, "-")
 		g.frameOp(li, c03EthIP, rf, len(rf), 1, 0, 0, "-")
 	}
+	// W8 (finding c03-janitor-delete-races-new-connection): a janitor round's BatchLookup walk collects the key of a closed
+	// connection; before its deletes run the client opens a NEW connection on the same 5-tuple (handed to dae, decision
+	// cached); the deletes are by key and remove the fresh entry; the connection's next segment passes untouched
+	setup("janitor-walk-delete-race")
+	g.emitProgram(group2)
+	g.frameOp(li, c03EthIP, syn, len(syn), 1, 0, 0, "-")
+	finack := c03Frame(&t, true, c03FlagFIN|c03FlagACK, true, nil)
+	g.frameOp(li, c03EthIP, finack, len(finack), 1, 0, 0, "-")
+	g.c("clock 13000000000") // 12 s later: the CLOSING entry is past its 10 s timeout
+	g.c("jsnap 0 0 0")
+	g.frameOp(li, c03EthIP, syn, len(syn), 1, 0, 0, "-")
+	g.c("jdel")
+	g.c("conndel " + c03KeyHex(&t, true)) // what the delete phase just did (checked against the jdel answer), applied to the programs' map
+	g.frameOp(li, c03EthIP, ack, len(ack), 1, 0, 0, "-")
+	// W7: PARAM images at the extremes of every field (each field with all bits set while its neighbours are 0)
+	g.c("note witness param-image")
+	for _, in := range []verifC03ParamIn{
+		{},
+		{TproxyPort: 0xffffffff}, {Dae0Ifindex: 0xffffffff}, {NetnsID: 0xffffffff}, {PeerMac: [6]byte{255, 255, 255, 255, 255, 255}},
+		{UseRedirectPeer: 1}, {HasBpfGetCurrentTask: 1}, {SoMarkFromDae: 0xffffffff},
+		{TproxyPort: 0x3930, Dae0Ifindex: 9, NetnsID: 4026532100, PeerMac: [6]byte{1, 2, 3, 4, 5, 6}, UseRedirectPeer: 1, HasBpfGetCurrentTask: 1, SoMarkFromDae: 0x8ae0},
+	} {
+		g.paramImage(in)
+	}
 	// W3 (fixed by e3060cb): SYN-ACK parsed by both paths; reply of a WAN-opened connection
 	setup("synack-parse-paths")
 	sa := c03Frame(&t, true, c03FlagSYN|c03FlagACK, true, nil)
@@ -1455,7 +1786,7 @@ func TestVerifC03Gen(t *testing.T) {
 		caps := [][3]int{{2, 1, 1}, {1, 4096, 4096}, {4096, 1, 4096}, {4096, 4096, 1}, {0, 0, 0}}
 		root := NewVRand(seed ^ 0xb)
 		_ = caps
-		g.c("caps 2 1 1")
+		g.c("caps 2 1 1 3")
 		g.cfg()
 		for i := 0; i < nScen/4+1; i++ {
 			g.scenario(NewVRand(root.U64()), NewVRand(root.U64()), i, "S", steps)
@@ -1463,7 +1794,7 @@ func TestVerifC03Gen(t *testing.T) {
 		}
 		g.st.Close()
 	}
-	for ci, caps := range []string{"caps 1 4096 4096", "caps 4096 1 4096", "caps 4096 4096 1", "caps 3 2 2"} {
+	for ci, caps := range []string{"caps 1 4096 4096", "caps 4096 1 4096 4", "caps 4096 4096 1", "caps 3 2 2 2"} {
 		g := &c03Gen{st: VOpenStream(fmt.Sprintf("c03c%d", ci)), stats: stats}
 		root := NewVRand(seed ^ uint64(0xc0+ci))
 		g.c(caps)
@@ -1479,6 +1810,7 @@ func TestVerifC03Gen(t *testing.T) {
 		g.c("caps 16 16 16")
 		g.cfg()
 		g.parseSection(NewVRand(seed^0x9a), nParse)
+		g.origDstSection(NewVRand(seed^0x0d), nParse/5)
 		g.st.Close()
 	}
 	{
@@ -1537,7 +1869,14 @@ func TestVerifC03Retr(t *testing.T) {
 		ValueSize: uint32(unsafe.Sizeof(bpfConnState{})), MaxEntries: 8192})
 	hoMap, err2 := ebpf.NewMap(&ebpf.MapSpec{Type: ebpf.Hash, KeySize: uint32(unsafe.Sizeof(bpfTuplesKey{})),
 		ValueSize: uint32(unsafe.Sizeof(bpfRoutingHandoffEntry{})), MaxEntries: 8192})
-	kernel := err1 == nil && err2 == nil
+	rtMap, err3 := ebpf.NewMap(&ebpf.MapSpec{Type: ebpf.Hash, KeySize: uint32(unsafe.Sizeof(bpfRedirectTuple{})),
+		ValueSize: uint32(unsafe.Sizeof(bpfRedirectEntry{})), MaxEntries: 8192})
+	ckMap, err4 := ebpf.NewMap(&ebpf.MapSpec{Type: ebpf.Hash, KeySize: 8, ValueSize: uint32(unsafe.Sizeof(bpfPidPname{})), MaxEntries: 8192})
+	kernel := err1 == nil && err2 == nil && err3 == nil && err4 == nil
+	if kernel {
+		defer rtMap.Close()
+		defer ckMap.Close()
+	}
 	if !kernel {
 		t.Logf("kernel maps unavailable (%v / %v): decoding through encoding/binary instead", err1, err2)
 		stats.Inc("retr.mode.fallback")
@@ -1554,12 +1893,27 @@ func TestVerifC03Retr(t *testing.T) {
 		objs := &bpfObjects{}
 		objs.ConnStateMap = connMap
 		objs.RoutingHandoffMap = hoMap
+		objs.RedirectTrack = rtMap
+		objs.CookiePidMap = ckMap
 		core.bpf.Store(objs)
 	}
 	cons := &c03Consumer{cp: &ControlPlane{core: core, log: logrus.New(), soMarkFromDae: c03SoMarkFromDae}, eps: map[UdpEndpointKey]bool{}}
+	if kernel {
+		cons.closedConn, _ = ebpf.NewMap(&ebpf.MapSpec{Type: ebpf.Hash, KeySize: uint32(unsafe.Sizeof(bpfTuplesKey{})),
+			ValueSize: uint32(unsafe.Sizeof(bpfConnState{})), MaxEntries: 1})
+		cons.closedHo, _ = ebpf.NewMap(&ebpf.MapSpec{Type: ebpf.Hash, KeySize: uint32(unsafe.Sizeof(bpfTuplesKey{})),
+			ValueSize: uint32(unsafe.Sizeof(bpfRoutingHandoffEntry{})), MaxEntries: 1})
+		if cons.closedConn != nil {
+			cons.closedConn.Close()
+		}
+		if cons.closedHo != nil {
+			cons.closedHo.Close()
+		}
+	}
 	cons.cp.log.SetOutput(io.Discard)
 	defer cons.reset()
 	var loadedConn, loadedHo map[string][]byte
+	j4 := &c03Jan4{core: core, maps: [4]*ebpf.Map{connMap, hoMap, rtMap, ckMap}, stats: stats}
 	for _, name := range streams {
 		if name == "" {
 			continue
@@ -1585,6 +1939,18 @@ func TestVerifC03Retr(t *testing.T) {
 			cl := ""
 			if sc.Scan() {
 				cl = sc.Text()
+			}
+			if strings.HasPrefix(op, "jan4 ") || strings.HasPrefix(op, "jsnap ") || op == "jdel" {
+				if !kernel {
+					w.WriteString("jan=unavailable\n")
+					continue
+				}
+				j4.loaded[0], j4.loaded[1] = loadedConn, loadedHo
+				ans := VRecover(func() string { return j4.op(op, cl) })
+				// the four kernel maps were reloaded behind the back of the other ops' bookkeeping
+				loadedConn, loadedHo = j4.loaded[0], j4.loaded[1]
+				w.WriteString(ans + "\n")
+				continue
 			}
 			if strings.HasPrefix(op, "jan ") {
 				if !kernel {
@@ -1749,6 +2115,8 @@ const c03SoMarkFromDae = 0x8ae0
 type c03Consumer struct {
 	cp  *ControlPlane
 	eps map[UdpEndpointKey]bool
+	// maps whose fd is closed: every lookup fails with an error that is not ErrKeyNotExist
+	closedConn, closedHo *ebpf.Map
 }
 
 func (c *c03Consumer) setEndpoint(k UdpEndpointKey, present bool) {
@@ -1886,8 +2254,12 @@ func c03RecString(rr *bpfRoutingResult) string {
 func (c *c03Consumer) use(op, cl string, connMap, hoMap *ebpf.Map, loadedConn, loadedHo *map[string][]byte, stats *VStats) string {
 	tk := strings.Fields(op)
 	cf := strings.Fields(cl)
-	if len(tk) != 8 || len(cf) != 3 || !strings.HasPrefix(cf[2], "now=") {
+	if (len(tk) != 8 && len(tk) != 9) || len(cf) != 3 || !strings.HasPrefix(cf[2], "now=") {
 		return "use=bad-op"
+	}
+	fault := ""
+	if len(tk) == 9 {
+		fault = tk[8]
 	}
 	l4, _ := strconv.Atoi(tk[1])
 	age, _ := strconv.ParseUint(tk[6], 10, 64)
@@ -1951,12 +2323,30 @@ func (c *c03Consumer) use(op, cl string, connMap, hoMap *ebpf.Map, loadedConn, l
 		}
 		return ap
 	}
+	if fault != "" {
+		objs := c.cp.core.bpf.Load()
+		if objs == nil || c.closedConn == nil || c.closedHo == nil {
+			return "use=unavailable"
+		}
+		savedConn, savedHo := objs.ConnStateMap, objs.RoutingHandoffMap
+		switch fault {
+		case "conn":
+			objs.ConnStateMap = c.closedConn
+		case "ho":
+			objs.RoutingHandoffMap = c.closedHo
+		}
+		defer func() { objs.ConnStateMap, objs.RoutingHandoffMap = savedConn, savedHo }()
+		stats.Inc("use.fault-injected." + fault)
+	}
 	t0 := time.Now()
 	var ans string
 	if l4 == 6 {
 		fc := &c03FakeConn{remote: net.TCPAddrFromAddrPort(spell(src)), local: net.TCPAddrFromAddrPort(spell(dst))}
 		rr, err := c.cp.verifC03TcpRecord(nil, fc)
-		if err != nil || rr == nil {
+		if err != nil && fault != "" {
+			ans = "use=error" // the head of handleConn returns the error: the connection is closed
+			stats.Inc("use.tcp.closed-on-lookup-error")
+		} else if err != nil || rr == nil {
 			ans = fmt.Sprintf("use=error:%v", err)
 		} else {
 			ans = fmt.Sprintf("use=%s fresh=- el=%d", c03RecString(rr), time.Since(t0).Nanoseconds())
@@ -1972,6 +2362,9 @@ func (c *c03Consumer) use(op, cl string, connMap, hoMap *ebpf.Map, loadedConn, l
 		switch {
 		case !delivered || rr == nil:
 			ans = "use=dropped"
+			if fault != "" {
+				stats.Inc("use.udp.dropped-on-lookup-error")
+			}
 		default:
 			ans = fmt.Sprintf("use=%s fresh=%d el=%d", c03RecString(rr), c03B2u(fresh), time.Since(t0).Nanoseconds())
 			if !fresh && rr.Outbound != uint8(consts.OutboundControlPlaneRouting) {
@@ -2170,4 +2563,296 @@ func c03RetrFallback(conn, ho map[string][]byte, keyHex string, l4 uint8, now ui
 		return c03RRString(&rr, nil)
 	}
 	return "rr=notfound"
+}
+
+// ---- all four userspace janitors, the reload-retirement pass, and rounds whose two phases are separated by traffic
+
+// Hook for rounds in two phases.  The janitors delete through BpfMapBatchDelete; with SimulateBatchDelete (the production
+// path for kernels without batch operations) that is one Map.Delete per collected key, and cilium/ebpf marshals each key
+// through encoding.BinaryMarshaler when the key type has the method.  The method below yields exactly the bytes the
+// default path yields (the struct's memory image) and, when armed, first lets the harness put the kernel map into the
+// state the TC programs produced between the BatchLookup walk and the deletes.  Unarmed it is a pure pass-through.
+var c03KeyMarshalHook func()
+
+func (k bpfTuplesKey) MarshalBinary() ([]byte, error) {
+	if h := c03KeyMarshalHook; h != nil {
+		c03KeyMarshalHook = nil
+		h()
+	}
+	b := make([]byte, unsafe.Sizeof(k))
+	copy(b, unsafe.Slice((*byte)(unsafe.Pointer(&k)), unsafe.Sizeof(k)))
+	return b, nil
+}
+
+type c03Jan4 struct {
+	core   *controlPlaneCore
+	maps   [4]*ebpf.Map // conn_state_map, routing_handoff_map, redirect_track, cookie_pid_map
+	loaded [4]map[string][]byte
+	stats  *VStats
+	// pending two-phase round
+	snapOp   string
+	snapDump [4]map[string][]byte
+	snapNow  uint64
+}
+
+var c03J4Names = [4]string{"conn", "ho", "rt", "ck"}
+
+// offset of last_seen_ns in the value of each map
+var c03J4TsOff = [4]int{8, 0, 24, 0}
+
+func c03ParseDump4(cl string) (d [4]map[string][]byte, now uint64, ok bool) {
+	cf := strings.Fields(cl)
+	if len(cf) != 5 || !strings.HasPrefix(cf[4], "now=") {
+		return d, 0, false
+	}
+	for i := 0; i < 4; i++ {
+		m, err := c03ParseDump(cf[i])
+		if err != nil || !strings.HasPrefix(cf[i], c03J4Names[i]+"=") {
+			return d, 0, false
+		}
+		d[i] = m
+	}
+	now, err := strconv.ParseUint(cf[4][4:], 10, 64)
+	return d, now, err == nil
+}
+
+// put kernel map i into exactly the state `want`; timestamps rebased so that an entry's age at realNow is its age at
+// virtual time vnow.  Returns the ages.
+func (j *c03Jan4) load(i int, want map[string][]byte, realNow, vnow uint64, ages map[string]uint64) error {
+	m := j.maps[i]
+	if j.loaded[i] == nil {
+		j.loaded[i] = map[string][]byte{}
+	}
+	for k := range j.loaded[i] {
+		if _, ok := want[k]; !ok {
+			kb, _ := hex.DecodeString(k)
+			if err := m.Delete(kb); err != nil && !stderrors.Is(err, ebpf.ErrKeyNotExist) {
+				return err
+			}
+		}
+	}
+	off := c03J4TsOff[i]
+	for k, v := range want {
+		kb, _ := hex.DecodeString(k)
+		vv := append([]byte{}, v...)
+		last := binary.NativeEndian.Uint64(vv[off:])
+		a := vnow - last
+		if ages != nil {
+			ages[c03J4Names[i]+k] = a
+		}
+		if last != 0 {
+			binary.NativeEndian.PutUint64(vv[off:], c03Rebase(realNow, a))
+		}
+		if err := m.Put(kb, vv); err != nil {
+			return err
+		}
+	}
+	cp := make(map[string][]byte, len(want))
+	for k, v := range want {
+		cp[k] = v
+	}
+	j.loaded[i] = cp
+	return nil
+}
+
+func (j *c03Jan4) gone(i int, in map[string][]byte) []string {
+	var out []string
+	for k := range in {
+		kb, _ := hex.DecodeString(k)
+		if v, err := j.maps[i].LookupBytes(kb); err == nil && v == nil {
+			out = append(out, k)
+			delete(j.loaded[i], k)
+		}
+	}
+	sort.Strings(out)
+	return out
+}
+
+// the absolute staleBeforeNs on the real clock for "idle for more than ago"
+func c03StaleReal(realNow, ago uint64) uint64 {
+	if ago == 0 {
+		return 0
+	}
+	if ago >= realNow {
+		return 1
+	}
+	return realNow - ago
+}
+
+func (j *c03Jan4) cp() *ControlPlane {
+	cp := &ControlPlane{core: j.core, log: logrus.New(), controlPlaneDatapathJanitor: newControlPlaneDatapathJanitor()}
+	cp.log.SetOutput(io.Discard)
+	return cp
+}
+
+// ages within the scheduling-noise band of a threshold: the host decided, not the code
+func c03Uncertain(a, realNow uint64, stall int64, limits []int64, ago uint64) bool {
+	maxLim := int64(0)
+	for _, l := range limits {
+		if l > maxLim {
+			maxLim = l
+		}
+	}
+	if int64(a) >= 0 && a >= realNow && int64(realNow) <= maxLim+5000000000 {
+		return true // older than the host's boot, and the host is younger than the longest timeout
+	}
+	for _, lim := range limits {
+		if int64(a) > lim-stall && int64(a) <= lim+20000000 {
+			return true
+		}
+	}
+	_ = ago // the retirement horizon is compared with timestamps rebased by the same clock sample: exact
+	return false
+}
+
+var c03J4Limits = func() [4][]int64 {
+	sec := int64(1000000000)
+	return [4][]int64{
+		{5 * sec, 17 * sec / 2, 10 * sec, 17 * sec, 60 * sec, 120 * sec},
+		{10 * sec},
+		{300 * sec},
+		{300 * sec},
+	}
+}()
+
+func (j *c03Jan4) op(op, cl string) string {
+	tk := strings.Fields(op)
+	dump, shimNow, ok := c03ParseDump4(cl)
+	if !ok {
+		return "jan=bad-dump"
+	}
+	switch tk[0] {
+	case "jan4":
+		if len(tk) != 4 {
+			return "jan=bad-op"
+		}
+		aggressive := tk[1] != "0"
+		age, _ := strconv.ParseUint(tk[2], 10, 64)
+		ago, _ := strconv.ParseUint(tk[3], 10, 64)
+		realNow, err := monotonicNowNano()
+		if err != nil {
+			return "jan=error:clock"
+		}
+		ages := map[string]uint64{}
+		for i := 0; i < 4; i++ {
+			if err := j.load(i, dump[i], realNow, shimNow+age, ages); err != nil {
+				return "jan=error:load-" + c03J4Names[i] + ":" + err.Error()
+			}
+		}
+		cp := j.cp()
+		if ago != 0 {
+			// the reload pass: the real entry point (always aggressive)
+			cp.RunReloadRetirementCleanup(c03StaleReal(realNow, ago))
+			j.stats.Inc("jan4.reload-retirement")
+		} else {
+			// the periodic janitors' entry points (they take the cleanup lock themselves)
+			cp.cleanupRedirectTrackMap()
+			cp.cleanupCookiePidMap()
+			cp.cleanupRoutingHandoffMap()
+			cp.cleanupConnStateMap(aggressive)
+		}
+		realNow2, _ := monotonicNowNano()
+		stall := int64(realNow2-realNow) + 20000000
+		var unc []string
+		var lists [4][]string
+		for i := 0; i < 4; i++ {
+			for k := range dump[i] {
+				if c03Uncertain(ages[c03J4Names[i]+k], realNow, stall, c03J4Limits[i], ago) {
+					unc = append(unc, k)
+				}
+			}
+			lists[i] = j.gone(i, dump[i])
+			j.stats.Add("jan4.deleted."+c03J4Names[i], len(lists[i]))
+		}
+		sort.Strings(unc)
+		j.stats.Inc("jan4.rounds")
+		j.stats.Add("jan4.uncertain", len(unc))
+		return fmt.Sprintf("del=[%s] hdel=[%s] rdel=[%s] cdel=[%s] unc=[%s]", strings.Join(lists[0], ";"), strings.Join(lists[1], ";"),
+			strings.Join(lists[2], ";"), strings.Join(lists[3], ";"), strings.Join(unc, ";"))
+	case "jsnap":
+		if len(tk) != 4 {
+			return "jan=bad-op"
+		}
+		j.snapOp, j.snapDump, j.snapNow = op, dump, shimNow
+		return "-"
+	case "jdel":
+		if j.snapOp == "" {
+			return "del=[] hdel=[] unc=[]"
+		}
+		st := strings.Fields(j.snapOp)
+		j.snapOp = ""
+		aggressive := st[1] != "0"
+		age, _ := strconv.ParseUint(st[2], 10, 64)
+		ago, _ := strconv.ParseUint(st[3], 10, 64)
+		realNow, err := monotonicNowNano()
+		if err != nil {
+			return "jan=error:clock"
+		}
+		initBatchDeleteFeatureFlags()
+		saved := SimulateBatchDelete
+		SimulateBatchDelete = true
+		defer func() { SimulateBatchDelete = saved; c03KeyMarshalHook = nil }()
+		ages := map[string]uint64{}
+		cp := j.cp()
+		var lists [2][]string
+		var stall int64
+		for i := 0; i < 2; i++ {
+			// phase 1 sees the snapshot ...
+			if err := j.load(i, j.snapDump[i], realNow, j.snapNow+age, ages); err != nil {
+				return "jan=error:load-" + c03J4Names[i] + ":" + err.Error()
+			}
+			// ... and right before the first delete the map is what the TC programs made of it meanwhile
+			fired := false
+			var hookErr error
+			c03KeyMarshalHook = func() {
+				fired = true
+				hookErr = j.load(i, dump[i], realNow, shimNow+age, nil)
+			}
+			t0, _ := monotonicNowNano()
+			if i == 0 {
+				cp.cleanupConnStateMapBeforeLocked(aggressive, c03StaleReal(realNow, ago))
+			} else {
+				cp.cleanupRoutingHandoffMapBeforeLocked(c03StaleReal(realNow, ago))
+			}
+			t1, _ := monotonicNowNano()
+			c03KeyMarshalHook = nil
+			if s := int64(t1-realNow) + 20000000; s > stall {
+				stall = s
+			}
+			_ = t0
+			if hookErr != nil {
+				return "jan=error:hook-load:" + hookErr.Error()
+			}
+			if !fired {
+				// nothing was collected: nothing is deleted from the later state either
+				if err := j.load(i, dump[i], realNow, shimNow+age, nil); err != nil {
+					return "jan=error:load2:" + err.Error()
+				}
+			} else {
+				j.stats.Inc("jdel.interleaved-delete-phase." + c03J4Names[i])
+			}
+			lists[i] = j.gone(i, dump[i])
+			j.stats.Add("jdel.deleted."+c03J4Names[i], len(lists[i]))
+			// an entry that is gone although the later state holds a value the walk did not see (re-created or refreshed
+			// in between): the snapshot/delete race
+			for _, k := range lists[i] {
+				if old, ok := j.snapDump[i][k]; ok && !bytes.Equal(old, dump[i][k]) {
+					j.stats.Inc("jdel.deleted-entry-changed-since-walk." + c03J4Names[i])
+				}
+			}
+		}
+		var unc []string
+		for i := 0; i < 2; i++ {
+			for k := range j.snapDump[i] {
+				if c03Uncertain(ages[c03J4Names[i]+k], realNow, stall, c03J4Limits[i], ago) {
+					unc = append(unc, k)
+				}
+			}
+		}
+		sort.Strings(unc)
+		j.stats.Inc("jdel.rounds")
+		j.stats.Add("jdel.uncertain", len(unc))
+		return fmt.Sprintf("del=[%s] hdel=[%s] unc=[%s]", strings.Join(lists[0], ";"), strings.Join(lists[1], ";"), strings.Join(unc, ";"))
+	}
+	return "jan=bad-op"
 }
